@@ -96,6 +96,12 @@ def main():
     case = json.load(open(sys.argv[1]))
     func = case["func"]
     kw = case.get("opts") or {}
+    if "ftConfig" in kw:
+        # ONE dict object, keyed the way callers key it (fontTools' option objects), shared by
+        # every call below (dict(kw) copies the outer mapping only)
+        from fontTools.otlLib.optimize.gpos import COMPRESSION_LEVEL
+        known = {COMPRESSION_LEVEL.name: COMPRESSION_LEVEL}
+        kw["ftConfig"] = {known.get(k, k): v for k, v in kw["ftConfig"].items()}
     other = case.get("other_func")
     results = {}
     tmp = tempfile.mkdtemp(prefix="vfc08_")
